@@ -14,7 +14,9 @@ exact BYTES of a frame incl. lengths and checksums, all in TLA+).
    OFConnection); after EVERY step the (port, bytes) of every DpPacketOut, every
    packet-in, all port counters read over the wire and the port configuration
    must equal the spec's.  Long behaviours come from TLC -simulate over seeded
-   random action lists of length <= 6.
+   random action lists of length <= 6.  The configurations csum_rx / csum_po use
+   frames SOLVED in the spec to sit on the special values of the Internet checksum
+   (computed checksum 0, sums needing a second fold) after each kind of rewrite.
 4. code -> spec: seeded random histories on the real switch are recorded and
    TLC decides whether each is a behaviour of the spec (bytes compared in TLC).
 """
@@ -48,9 +50,13 @@ CONFIGS = {
     "buf_q": (["Rx", "PacketOutBuf", "FlowMod", "FlowDel"], dict(MaxHeld=2)),
     "buf": (["Rx", "PacketOutBuf", "FlowMod", "FlowDel"], dict(MaxHeld=2)),
     "frag": (["Rx", "FlowMod", "FlowDel", "PortMod", "SetFrag"], {}),
+    # frames SOLVED (MCDatapath!Solve) to sit on the special values of the Internet checksum after each rewrite
+    "csum_rx": (["Rx", "FlowMod", "FlowDel"], {}),
+    "csum_po": (["PacketOut"], {}),
 }
-QUICK = ["lists_q", "pktout_q", "table", "ports_q", "buf_q", "frag"]
-THOROUGH = ["lists", "pktout", "table", "ports", "buf", "frag"]
+QUICK = ["lists_q", "pktout_q", "table", "ports_q", "buf_q", "frag", "csum_rx", "csum_po"]
+THOROUGH = ["lists", "pktout", "table", "ports", "buf", "frag", "csum_rx", "csum_po"]
+CSUM = ("csum_rx", "csum_po")
 # every operation sequence of length D over a small alphabet (history the abstract state does not show)
 PATHS = {"quick": "paths3", "thorough": "paths4"}
 
@@ -111,6 +117,7 @@ class Oracle(object):
   def __init__(self, ctx):
     self.ctx = ctx
     self.hexof = {}
+    self.altof = {}                     # record -> the other byte string the property accepts (Frames!EncAlts)
     self.runs = 0
 
   def need(self, recs):
@@ -140,20 +147,32 @@ class Oracle(object):
         raise core.Machinery("byte oracle disagreement on %s:\n TLA+  %s\n struct %s"
                              % (core.canon(rec), hx, fr.enc(rec).hex()))
       self.hexof[core.canon(rec)] = hx
+      if e["alt"]:
+        ax = bytes(e["alt"]).hex()
+        if not rec.get("nocs") or fr.enc(dict(rec, nocs=False)).hex() != ax or len(ax) != len(hx):
+          raise core.Machinery("byte oracle disagreement on the alternative of %s:\n TLA+  %s" % (core.canon(rec), ax))
+        self.altof[core.canon(rec)] = ax
+      elif rec.get("nocs"):
+        raise core.Machinery("no alternative printed for %s" % core.canon(rec))
     self.runs += 1
     self.ctx.add_model("EncTable (Frames!Enc of %d frame records; lengths and checksums verified)" % len(todo), r,
-                       properties=["Canonical", "OracleOK"])
+                       properties=["Canonical", "OracleOK", "AltsOK"])
 
   def hex(self, rec):
     return self.hexof[core.canon(rec)]
 
+  def alt(self, rec):
+    return self.altof.get(core.canon(rec))
 
-def concretise(beh, orc, shapes):
+
+def concretise(beh, orc, shapes, ztab=None):
   """spec behaviour (frame records) -> replayable behaviour (bytes by TLC)."""
   flow, out_b = None, []
   for st in beh:
     a, args, exp = st["a"], dict(st["args"]), st["exp"]
     info = {}
+    if a in ("Rx", "PacketOut"):
+      info["csum_shape"] = csum_shape(args["f"], ztab, shapes)
     if a == "FlowMod":
       flow = args["acts"]
     elif a == "FlowDel":
@@ -166,21 +185,48 @@ def concretise(beh, orc, shapes):
         args[k] = sorted(args[k])
     if a in TRAFFIC:
       info["flow"] = flow or []
+      # latitude of the spec (Frames!EncAlts): other byte string -> the one logged, for the frames of this step
+      alts = {}
+      for g in exp["em"]:
+        if orc.alt(g["f"]):
+          alts[orc.alt(g["f"])] = orc.hex(g["f"])
+      for p in exp["pins"]:
+        if orc.alt(p["f"]):
+          alts[orc.alt(p["f"])[:2 * p["dlen"]]] = orc.hex(p["f"])[:2 * p["dlen"]]
       exp = dict(
           em=[sorted([q, orc.hex(g["f"])] for q in g["ports"]) for g in exp["em"]],
           pins=[dict(inport=p["inport"], reason=p["reason"], total=p["total"],
                      data=orc.hex(p["f"])[:2 * p["dlen"]], opt=p["opt"]) for p in exp["pins"]],
           drop=exp["drop"], stats=exp["stats"])
+      if alts:
+        exp["alts"] = alts
     elif "config" in exp:
       exp = dict(config=[sorted(c) for c in exp["config"]])
     out_b.append(dict(a=a, args=args, exp=exp, info=info))
   return out_b
 
 
+def csum_shape(shape, ztab, shapes):
+  """'udp/zero' ... for a shape solved to sit on a special checksum value, 'udp/none' for no checksum, else ''."""
+  z = (ztab or {}).get(shape)
+  if z:
+    return "%s/%s" % (z["site"], z["cls"])
+  return "udp/none" if (shapes or {}).get(shape, {}).get("nocs") else ""
+
+
+_BCLS = {}
+
+
+def bcls(hx):
+  if hx not in _BCLS:
+    _BCLS[hx] = sorted(fr.boundary_classes(bytes.fromhex(hx)))
+  return _BCLS[hx]
+
+
 def describe_cover(behs):
   """what the exported behaviours exercise (vacuity notes for the evidence)."""
   c = dict(steps=0, traffic=0, emitting=0, multi_port_groups=0, ingress_drops=0, packet_ins=0,
-           optional_packet_ins=0, truncated_packet_ins=0, lists_len3plus=0)
+           optional_packet_ins=0, truncated_packet_ins=0, lists_len3plus=0, either_way_frames=0)
   for b in behs:
     for st in b:
       c["steps"] += 1
@@ -191,6 +237,10 @@ def describe_cover(behs):
       e = st["exp"]
       c["traffic"] += 1
       c["emitting"] += 1 if e["em"] else 0
+      c["either_way_frames"] += len(e.get("alts", ()))
+      for g in e["em"]:                 # emitted frames that sit on a special value of the Internet checksum
+        for k in bcls(g[0][1]):
+          c["csum:" + k] = c.get("csum:" + k, 0) + 1
       c["multi_port_groups"] += sum(1 for g in e["em"] if len(g) > 1)
       c["ingress_drops"] += 1 if e["drop"] else 0
       c["packet_ins"] += len(e["pins"])
@@ -257,7 +307,13 @@ def run(ctx):
       "bounds: 3 ports; 30 frame shapes (untagged/tagged x IPv4 TCP/UDP/ICMP/other, ARP, opaque ethertype, 802.1D "
       "BPDU, odd payloads, CFI set, ECN set, first/later fragments, 242-byte frame, IPv4 headers with options "
       "(Router Alert IHL 6, NOP+RA IHL 7, Timestamp IHL 8, full Record Route IHL 15) and TCP headers with options "
-      "(data offset 6, 7 with EOL padding, 10)); action lists: every list of length <= 2 over the "
+      "(data offset 6, 7 with EOL padding, 10)) + 28 shapes SOLVED in TLA+ (MCDatapath!Solve, with the block "
+      "operators Frames!Enc uses; TLC verifies each: ASSUME Hits) so that as received or after set_tp_src / "
+      "set_tp_dst / set_nw_src / set_nw_dst / set_nw_tos / a pair of them the UDP, TCP, ICMP or IPv4 header "
+      "checksum is computed as 0 (UDP must send 0xffff, the others 0x0000) or the ones-complement sum needs a "
+      "second end-around carry (big-endian and little-endian summation) + 2 UDP shapes without checksum; those "
+      "30 shapes x 43 action lists (each rewrite alone, before/after an output, with a VLAN push / strip, to the "
+      "controller) in flow entries and in packet-outs, and in the simulated / recorded histories; action lists: every list of length <= 2 over the "
       "alphabet (thorough 28 actions: 14 rewrites over the 10 rewrite types + 14 outputs/enqueues to ports 1-3, an "
       "absent port, IN_PORT, FLOOD, ALL, CONTROLLER with max_len 65535/0, NORMAL, LOCAL, NONE; quick 10 + 8; TABLE in "
       "packet-outs) + output-rewrite-output and rewrite-rewrite-output triples exhaustively, length <= 6 by seeded random lists; port "
@@ -265,11 +321,12 @@ def run(ctx):
       "the flow table holds at most one, match-everything entry (matching is C03/C04's subject); packet buffers "
       "are plentiful (C18 covers exhaustion); output:TABLE is exercised as the last action of a packet-out list "
       "only (what later actions see after TABLE differs between switches) and never in a flow entry",
-      "frames carry correct lengths and checksums and no Ethernet padding; frames arriving on a port that is "
+      "frames carry correct lengths and checksums (or, UDP, none) and no Ethernet padding; frames arriving on a port that is "
       "administratively down, and nw/tp rewrites of a first IPv4 fragment, are outside the model",
       "spec latitude: frames emitted by ONE flood/all action are a set per action (order between actions fixed); "
       "a frame refused at ingress may or may not count as received; output:CONTROLLER from a NO_PACKET_IN port "
-      "may or may not send",
+      "may or may not send; a UDP datagram that arrived WITHOUT checksum (field 0) may leave with the field still 0 "
+      "or with the correct checksum of the datagram as it leaves filled in (Frames!EncAlts; the code fills it in)",
       "OpenFlow bytes built/decoded by harness/rawbytes.py (struct only); frame bytes computed by TLC from "
       "Frames.tla and cross-checked against an independent struct encoder (harness/c12_frames.py)",
   ]
@@ -285,7 +342,7 @@ def run(ctx):
     t0 = time.time()
 
   exported = {}
-  shapes = None
+  shapes = ztab = None
   # 1. the property on the model + one behaviour per transition; 2. long behaviours:
   #    TLC -simulate over seeded random action lists.  The TLC runs are independent
   #    single-worker JVMs: run them side by side.
@@ -305,7 +362,7 @@ def run(ctx):
                    depth=31, seed=ctx.seed + 1, tag="C12", env=dict(JVM, C12_LISTS=lpath), timeout=1500)
 
   try:
-    with concurrent.futures.ThreadPoolExecutor(max_workers=8) as pool:
+    with concurrent.futures.ThreadPoolExecutor(max_workers=10) as pool:
       futs = {n: pool.submit(mx, n) for n in names}
       futs["sim"] = pool.submit(simulate, None)
       futs["paths"] = pool.submit(mx, PATHS[ctx.tier if ctx.tier in PATHS else "quick"])
@@ -322,6 +379,7 @@ def run(ctx):
     if len(behs) != r.generated - 1:
       raise tlc.TLCError("%s: exported %d behaviours for %d transitions" % (n, len(behs), r.generated - 1))
     shapes = r.tagged("S")[0]
+    ztab = r.tagged("Z")[0]             # shape -> which special checksum value it was solved for (TLC verified it)
     exported[n] = behs
   r = results["paths"]
   if r.violated:
@@ -350,13 +408,21 @@ def run(ctx):
   for n in names:                       # literal samples for the evidence: one short emitting behaviour per config
     pick = [b for b in exported[n] if b[-1]["a"] in TRAFFIC and b[-1]["exp"]["em"] and len(b) <= 4]
     if pick and len(ctx.samples) < 5:
-      ctx.samples.append(concretise(pick[(ctx.seed + len(pick) // 2) % len(pick)], orc, shapes))
+      ctx.samples.append(concretise(pick[(ctx.seed + len(pick) // 2) % len(pick)], orc, shapes, ztab))
   last = None
   total = dict()
   for n in names:
-    behs = [concretise(b, orc, shapes) for b in exported[n]]
-    for k, v in describe_cover(behs).items():
+    behs = [concretise(b, orc, shapes, ztab) for b in exported[n]]
+    cover = describe_cover(behs)
+    for k, v in cover.items():
       total[k] = total.get(k, 0) + v
+    if n in CSUM:
+      # vacuity guard: every special value the shapes were solved for is on a frame the switch must emit,
+      # and the frames without a UDP checksum are there
+      need = sorted(set("%s/%s" % (z["site"], z["cls"]) for z in ztab.values()) | {"udp/none"})
+      missing = [k for k in need if not cover.get("csum:" + k)]
+      if missing or not cover.get("either_way_frames"):
+        raise tlc.TLCError("vacuous export (%s): no emitted frame on %s" % (n, missing or "either-way frames"))
     params = dict(NP=3, MissLen=128, **CONFIGS[n][1])
     replay(ctx, n, behs, params)
     if last is None and core.replay.last_ok:
@@ -367,9 +433,9 @@ def run(ctx):
                        "truncated_packet_ins", "lists_len3plus") if not total.get(k)]
   if empty:
     raise tlc.TLCError("vacuous export: no behaviour exercises %s" % empty)
-  behs = [concretise(b, orc, shapes) for b in exported["paths"]]
+  behs = [concretise(b, orc, shapes, ztab) for b in exported["paths"]]
   replay(ctx, "paths", behs, dict(NP=3, MissLen=128))
-  behs = [concretise(b, orc, shapes) for b in exported["sim"]]
+  behs = [concretise(b, orc, shapes, ztab) for b in exported["sim"]]
   replay(ctx, "sim", behs, dict(NP=3, MissLen=128, MaxHeld=2), chunk=10)
   if last is None:
     ctx.notes["negative_control"] = "skipped: no behaviour replayed to its end"
@@ -379,6 +445,7 @@ def run(ctx):
   jobs = []
   for kind, cfg, ntr in (("free", "Trace.cfg", 60 if quick else 1500), ("buf", "Trace_buf.cfg", 30 if quick else 600)):
     items = [dict(seed=ctx.seed * 100003 + i, n=25 if quick else 30, kind=kind, hexes=hexes) for i in range(ntr)]
+    TRACE_ZTAB.update({k: csum_shape(k, ztab, shapes) for k in shapes})
     traces = core.run_driver("props.C12:drive", items)
     bad1, bad2 = corrupt(traces)
     jobs.append((kind, cfg, traces, [bad1, bad2]))
@@ -443,10 +510,12 @@ def trace_signature(trace, i):
   return dict(action=ev["a"], via="trace", enqueue="enqueue" in types,
               table=any(x["t"] == "output" and x["n"] == 0xfff9 for l in lists for x in l),
               odd_l4=str(shape).endswith("_odd"), cfi=shape == "t_cfi", first_frag=shape in FIRST_FRAGS, options="opt" in str(shape),
+              csum_shape=TRACE_ZTAB.get(shape, ""),
               ecn=str(shape).endswith("_ecn") and "set_nw_tos" in types,
               observed=("exception:" + ev["obs"].get("exc", "?")) if not ev["wf"] else "rejected")
 
 
+TRACE_ZTAB = {}                         # shape -> 'udp/zero' ... (signatures of rejected traces)
 SHAPES_FREE = ["u_tcp", "t_tcp", "u_udp", "t_udp", "u_udp_ecn", "u_udp0", "u_big", "u_icmp", "t_icmp", "u_ipx",
                "u_tcp_odd", "u_udp_odd", "u_icmp_odd", "t_cfi", "u_frag1", "t_frag1t", "u_frag2", "u_arp", "t_arp", "u_oth",
                "bpdu", "u_udp_ipopt", "t_tcp_opts", "u_tcp_tcpopt", "u_tcp_eolopt", "u_tcp_opts_odd", "u_icmp_ipopt",
@@ -527,6 +596,8 @@ def drive(item):
   rnd = random.Random(item["seed"])
   rec = Recorder(item["kind"], item["hexes"])
   buf = rec.buf
+  # every shape of the spec, the ones solved for the special checksum values included (MCDatapath!ZShape, NShape)
+  shapes_free = SHAPES_FREE + sorted(set(item["hexes"]) - set(SHAPES_FREE))
 
   def pins_of(acts):          # upper bound of packet-ins a list can cause
     return sum(1 for a in acts if a["t"] == "output" and a["n"] == 0xfffd)
@@ -543,7 +614,7 @@ def drive(item):
       p = rnd.randint(1, 3)
       if "PORT_DOWN" in rec.cfg[p]:
         continue                             # outside the model
-      a, args = "Rx", dict(p=p, f=rnd.choice(SHAPES_FREE))
+      a, args = "Rx", dict(p=p, f=rnd.choice(shapes_free))
       if buf and rec.held + (pins_of(rec.flow) if rec.has_flow else 1) > 3:
         continue
       if args["f"] in FIRST_FRAGS and nw_rewrite(rec.flow):
@@ -552,7 +623,7 @@ def drive(item):
       acts = random_list(rnd, maxlen=5, controller=not buf or rnd.random() < 0.3)
       if rnd.random() < 0.25:
         acts = acts + [TABLE]
-      a, args = "PacketOut", dict(ip=rnd.choice([1, 2, 3, 0xffff]), f=rnd.choice(SHAPES_FREE), acts=acts)
+      a, args = "PacketOut", dict(ip=rnd.choice([1, 2, 3, 0xffff]), f=rnd.choice(shapes_free), acts=acts)
       worst = pins_of(acts) + (max(pins_of(rec.flow), 1) if acts[-1] == TABLE else 0)
       if buf and rec.held + worst > 3:
         continue
